@@ -73,6 +73,31 @@ def _normalise_namespace_aliases(tree: ast.Module) -> None:
         fn.body = [R().visit(st) for st in fn.body]
 
 
+def _normalise_trailing_ifs(tree: ast.Module) -> None:
+    """A loop body ending in `if c: <rest>` (no else) is the same loop as one saying `if not c: continue` followed
+    by <rest>.  The second form is made canonical, so that rules which read the skip conditions of a loop from its
+    `continue` guards give the same verdict for both styles."""
+    def conv(body):
+        if not body:
+            return body
+        last = body[-1]
+        if isinstance(last, ast.If) and not last.orelse and last.body and not isinstance(last.body[-1], (ast.Continue, ast.Break, ast.Return, ast.Raise, ast.Pass)):
+            t = last.test.operand if isinstance(last.test, ast.UnaryOp) and isinstance(last.test.op, ast.Not) else ast.UnaryOp(op=ast.Not(), operand=last.test)
+            if t is not last.test.operand if isinstance(last.test, ast.UnaryOp) and isinstance(last.test.op, ast.Not) else True:
+                ast.copy_location(t, last.test)
+            cont = ast.Continue()
+            ast.copy_location(cont, last)
+            guard = ast.If(test=t, body=[cont], orelse=[])
+            ast.copy_location(guard, last)
+            guard.end_lineno = getattr(last.test, "end_lineno", last.lineno)
+            guard.synthetic_guard = True
+            return body[:-1] + [guard] + conv(list(last.body))
+        return body
+    for n in ast.walk(tree):
+        if isinstance(n, ast.For) and not n.orelse:
+            n.body = conv(n.body)
+
+
 def _normalise_local_annotations(tree: ast.Module) -> None:
     """Inside function bodies, `x: T = v` is the same statement as `x = v` for every rule
     here: rewrite it to an Assign (the annotation is kept in `.ann`), so that adding or
@@ -246,6 +271,8 @@ class Index:
                     raise AnalysisError(f"cannot parse {path}: {e}") from e
                 _normalise_local_annotations(tree)
                 _normalise_namespace_aliases(tree)
+                if os.environ.get("VT_NO_TRAILING_IF_NORM") != "1":
+                    _normalise_trailing_ifs(tree)
                 mi = ModuleInfo(modname, path, os.path.relpath(path, self.root), tree, src)
                 self.modules[modname] = mi
                 self._index_module(mi, is_pkg=fn == "__init__.py")
